@@ -1167,6 +1167,18 @@ POLE_WITNESS = dict(nx=109, ny=117, ra=345.03971547346663, dec=-80.0, scale=0.25
 def part_F(rng, tier, V, replay=None):
     work = common.workdir()
     cases = [dict(F7_WITNESS), dict(POLE_WITNESS)]
+    # non-square images with a pole far along the LONG axis (pixel x > ny resp. y > nx):
+    # an inside-the-image test that mixes up (x, y) with (ny, nx) misses these
+    for (nx0, ny0) in ((120, 30), (30, 120)):
+        for rot0 in range(0, 360, 5):
+            w0 = mk_tan(nx0, ny0, 10.0, -80.0, 0.25, float(rot0), -1)
+            with np.errstate(invalid="ignore"):
+                px0, py0 = w0.wcs_world2pix([[0.0, -90.0]], 1)[0]
+            inside = 0.5 <= px0 <= nx0 + 0.5 and 0.5 <= py0 <= ny0 + 0.5
+            if inside and ((nx0 > ny0 and px0 > ny0 + 2) or (ny0 > nx0 and py0 > nx0 + 2)):
+                cases.append(dict(nx=nx0, ny=ny0, ra=10.0, dec=-80.0, scale=0.25, rot=float(rot0), parity=-1,
+                                  depth=4, e2e_depth=2))
+                break
     n = 6 if tier == "quick" else 40
     for i in range(n):
         big = rng.random() < 0.5
